@@ -3,6 +3,7 @@ CONSTANTS D <- MCD
   Msgs <- MCMsgs
   Regs <- MCRegs
   MaxCalls = 2
+  MaxRegs = 1
   Locked = TRUE
 SPECIFICATION MCSpec
 INVARIANTS NoCrash Exclusion SeesCompleted
